@@ -80,7 +80,7 @@ TNote ==
     /\ Report({}, {})
 
 (* lines that carry no Weave state *)
-Skippable == {"Call", "Ret", "RunBegin", "Ranked", "Dm", "KmNode", "KmSplit", "KmReduce", "KmKids", "KmDone",
+Skippable == {"Call", "Ret", "RunBegin", "Ranked", "Dm", "Anchors", "KmNode", "KmSplit", "KmReduce", "KmKids", "KmDone",
               "Params", "RunEnd", "HStep", "HSplit", "HFwd", "HBwd", "HMeet", "MergeBegin", "End", "Heap"}
 
 TSkip ==
